@@ -55,9 +55,9 @@ func run(c Case) (res ev.Result) {
 	var n, nt int64
 	defer func() { counters.AddEnum(n, nt, "") }()
 	// ---- write direction: budget k bytes, k = 0 .. len(file) (k == len: no fault)
-	for _, wm := range []string{"write-short", "write-zero", "write-full-count"} {
+	for _, wm := range []string{"write-short", "write-zero", "write-full-count", "write-transient"} {
 		mode := wm
-		short := wm == "write-short"
+		short := wm == "write-short" || wm == "write-transient"
 		for _, k := range offsets(file) {
 			if !want(mode, k) {
 				continue
@@ -66,7 +66,7 @@ func run(c Case) (res ev.Result) {
 			if k > 14 {
 				nt++
 			}
-			w := &faultio.Writer{Budget: k, Short: short, Full: wm == "write-full-count"}
+			w := &faultio.Writer{Budget: k, Short: short, Full: wm == "write-full-count", Transient: wm == "write-transient"}
 			var size int64
 			var werr error
 			if p := ev.Try(func() { size, werr = gen.BuildLib(c.API).WriteTo(w) }); p != "" {
@@ -84,7 +84,7 @@ func run(c Case) (res ev.Result) {
 					return
 				}
 			}
-			if werr == nil && size != int64(len(w.Accepted)) && !w.Full {
+			if werr == nil && size != int64(len(w.Accepted)) && !w.Full && !w.Transient {
 				res.Violation = fmt.Sprintf("%s: nil error with size %d but %d bytes accepted", mode, size, len(w.Accepted))
 				return
 			}
@@ -186,7 +186,7 @@ func offsets(file []byte) []int {
 }
 
 var files = ev.NewCheck("C10", "files",
-	"rapid: files from the C01 API-history generator (1..5 tracks, payloads <= 300 bytes, in one case of twelve up to 70000 bytes with a forced payload of 4097 / 65536 / 65537 / 70000 bytes in the last track; files > 1500 bytes use every offset near the start, every chunk header, the buffer thresholds and the end plus a stride instead of every offset); per file a write fault at EVERY byte offset (short write (k,err), refused write (0,err) and deferred failure (len(p),err)) and a sticky non-EOF read fault at EVERY byte offset (error alone after k bytes, and together with the last bytes); oracle: fault before the end => non-nil error (read: and no value), no fault => nil error, size == bytes accepted == file length; the per-fault-point counts are in part 'fault-points'",
+	"rapid: files from the C01 API-history generator (1..5 tracks, payloads <= 300 bytes, in one case of twelve up to 70000 bytes with a forced payload of 4097 / 65536 / 65537 / 70000 bytes in the last track; files > 1500 bytes use every offset near the start, every chunk header, the buffer thresholds and the end plus a stride instead of every offset); per file a write fault at EVERY byte offset (short write (k,err), refused write (0,err), deferred failure (len(p),err) and a transient failure (one short write with an error, later writes accepted again)) and a sticky non-EOF read fault at EVERY byte offset (error alone after k bytes, and together with the last bytes); oracle: fault before the end => non-nil error (read: and no value), no fault => nil error, size == bytes accepted == file length; the per-fault-point counts are in part 'fault-points'",
 	func(t *rapid.T) Case {
 		mp := 300
 		if rapid.IntRange(0, 11).Draw(t, "bigPayloads?") == 0 {
